@@ -36,7 +36,7 @@ M = [
  ("C17", "sink-eagain-not-retried", "src/endpoints/core.c", "        if (put == -EINTR || put == -EAGAIN) {", "        if (put == -EINTR) {"),
  ("C17", "atmost-aux-clamp-off-by-one", "src/endpoints/core.c", "        buffer.used = buffer.offset + n;", "        buffer.used = buffer.offset + n + 1u;"),
  ("C18", "clear-zeroes-only-the-filled-part", "src/byte-buffer.c", "    b->offset = b->used = 0u;\n    memset(b->data, 0, b->size);", "    memset(b->data, 0, b->used);\n    b->offset = b->used = 0u;"),
- ("C18", "add-accepts-one-octet-too-many", "src/byte-buffer.c", "    if (b->size < (b->used + size)) {", "    if (b->size + 1u < (b->used + size)) {"),
+ ("C18", "add-accepts-one-octet-too-many", "src/byte-buffer.c", "    if (size > (b->size - b->used)) {", "    if (size > (b->size - b->used) + 1u) {"),
  ("C19", "old-to-new-iterator-wraps-one-late", "src/ring-buffer-iter.c", "        iter->index = (iter->index + 1) % iter->size;", "        iter->index = (iter->index + 1) % (iter->size + 1);"),
  ("C19", "iterator-new-to-old-starts-at-head", "include/ufw/ring-buffer-iter.h", "                (c->head == 0) ? c->datasize - 1 : c->head - 1; \\", "                (c->head == 0) ? c->datasize - 1 : c->head;     \\"),
 ]
